@@ -531,30 +531,6 @@ def decode(name, raw):
         return None
 
 
-_X86_LEGACY = frozenset(b"\x66\x67\xf0\xf2\xf3\x2e\x36\x3e\x26\x64\x65")
-
-
-def x86_order_dependent(name, raw):
-    """True for x86 bytes whose decoding depends on the history of the process: a 66 prefix that is not the last
-    legacy prefix, in front of a 0F-map opcode.  cls_mn.dis hands one pre_dis_info dict to all candidate classes and an
-    x86 class with a mandatory 66 prefix clears 'opmode' in it before rejecting the bytes; candidates are tried in set
-    order (hash = address of the class), so e.g. 66 F0 0F 7E 00 decodes as MOVD WORD PTR or MOVD DWORD PTR.  Such
-    elements are skipped and counted (not replayable).  Remove this filter once the decoder copies the dict per
-    candidate."""
-    if not name.startswith("x86"):
-        return False
-    i = 0
-    n = len(raw)
-    while i < n and raw[i] in _X86_LEGACY:
-        i += 1
-    if i < 2 or 0x66 not in raw[:i - 1]:
-        return False
-    if name == "x86_64":
-        while i < n and 0x40 <= raw[i] <= 0x4F:
-            i += 1
-    return i < n and raw[i] == 0x0F
-
-
 def iter_shard_indexed(shard, stats, stride=1):
     """Yield (index, raw, instr) for every element of the shard (only indexes that are multiples of `stride`) that
     the decoder accepts, once per distinct decoded byte string (instr.b) inside the shard.  stats (dict) receives:
@@ -571,9 +547,6 @@ def iter_shard_indexed(shard, stats, stride=1):
             continue
         stats["elements"] = stats.get("elements", 0) + 1
         raw = raw_of(name, kind, b)
-        if x86_order_dependent(name, raw):
-            stats["order_dependent_decode_skipped"] = stats.get("order_dependent_decode_skipped", 0) + 1
-            continue
         try:
             instr = decode(name, raw)
         except Exception as e:        # decoder crash: the decoder did not accept the bytes (out of C14-C16's scope)
